@@ -313,10 +313,10 @@ pub fn run(ctx: &mut Ctx) {
         ctx.judge(c, res);
     }
     ctx.stage("chunk-offsets");
-    let n = ctx.pick(4000u32, 80_000u32) / ctx.nshards;
+    let n = ctx.pick(40_000u32, 400_000u32) / ctx.nshards;
     ctx.run_prop(family_a(), n, |ctx, c| oracle(ctx, c));
     ctx.stage("durations");
-    let n = ctx.pick(4000u32, 80_000u32) / ctx.nshards;
+    let n = ctx.pick(40_000u32, 400_000u32) / ctx.nshards;
     ctx.run_prop(family_c(), n, |ctx, c| oracle(ctx, c));
 }
 
